@@ -188,6 +188,7 @@ fn judge(spec: &FaultSpec, run: &RunOut, end: &EndState, panics: &[String], orac
     }
     let mut m = RefStore::fresh(spec.wcfg.allow_duplicates);
     m.max_data = spec.wcfg.max_data_in_blob;
+    m.max_size = spec.wcfg.max_blob_size;
     // value bytes of every write, by op index, and whether it was acknowledged
     let mut acked_values: Vec<(KeyId, Vec<u8>)> = Vec::new();
     let mut failed_values: Vec<(KeyId, Vec<u8>)> = Vec::new();
